@@ -106,6 +106,8 @@ def _drive_ipm(args):
                     m.pop(c, None)
             if j == 0:
                 m['DE55'] = isoc.ricc(r) + bytes([0x82, 3, 0x80, 0xfe, 0xff])      # ICC bytes >= 0x80
+                if cid % 3 == 0:
+                    m['DE55'] = bytes([0x9f, 0x26, 2, 1, 0x80]) + b'\x00\x00\x00' + bytes([0x82, 1, 0xff])    # low-values filler
                 m.pop('DE48', None)
                 if not any(k.startswith('PDS') for k in m):
                     m['PDS0158'] = 'ABC 123'
@@ -128,6 +130,11 @@ def _drive_ipm(args):
         rc = reader_config(tool)
         res = {'cid': cid, 'tool': tool, 'a': a, 'b': b, 'fi': fi, 'fo': fo, 'viol': [],
                'desc': '%s %s(%s) -> %s(%s), %d records' % (tool, a, fi, b, fo, n)}
+        if cid % 5 == 2:
+            # an earlier 1014 writer in this process that was abandoned without being finalised
+            w0 = mciipm.IpmWriter(io.BytesIO(), encoding=a, blocked=True)
+            w0.write({'MTI': '1240', 'DE3': '999999', 'DE72': 'abandoned ' * 40})
+            del w0
         try:
             with drv.Watchdog(20.0):
                 dst = run_ipm_tool(tool, src, a, b, fi, fo, wd, '%d' % cid)
